@@ -25,6 +25,7 @@ type Profile struct {
 	StatePct   int      // percent of new/set ops with a state field (default 45)
 	ClaimPct   int      // percent with a claim field (default 30)
 	MixedPct   int      // percent of sequence ops aimed at the task/epic two-level interaction
+	ChopPct    int      // percent of steps that strip the final newline off the log (a complete last event, cut one byte short)
 }
 
 func (p Profile) epicPct() int {
@@ -260,6 +261,9 @@ func genFields(t *rapid.T, g refGen, prof Profile, op *Op, isNew, isEpic bool) {
 			op.Claim = sp("")
 		} else {
 			op.Claim = sp(oneOf(t, agents, "claim"))
+			if json && pct(t, 6, "f.claim.odd") {
+				op.Claim = sp(oneOf(t, []string{" ", "\t", "  a1  ", "\u00a0"}, "claim.odd"))
+			}
 		}
 	}
 	if pct(t, 45, "f.agent") {
@@ -366,6 +370,9 @@ func genOp(t *rapid.T, w *World, pre *Snapshot, prof Profile) Op {
 	if nTasks > 12 {
 		weights["new_task"] = 1
 		weights["plan"] = 0
+	}
+	if w.StepNo >= 2 && len(pre.Items) > 0 && pct(t, prof.ChopPct, "chop") {
+		return Op{Kind: "chop_newline"}
 	}
 	kind := pickWeighted(t, weights, "kind")
 	op := Op{Kind: kind}
